@@ -285,3 +285,22 @@ package fstree
 //@   callee os.RemoveAll, os.Remove
 //@   pureeffect
 //@   requires [never_the_final_path] a0 == tmpPath
+
+// ---- C10 (whole-object read): what readFullObject returns is the stored bytes - the prefix it
+// was given and the rest of the stream - put through the decompression step as a whole; it is
+// that step (on the assembled bytes, not on the prefix alone, which is empty for an entry of a
+// combined file) that tells compressed data from plain.
+//@ callrule c10_full_object_goes_through_decompression in (*FSTree).readFullObject
+//@   property C10
+//@   callee fstree.decompress
+//@   pureeffect
+//@   requires [assembled_bytes_are_what_is_decompressed] len(a0) == len(initial) + readCount()
+//@ ghost pred readCount() int
+//@ callrule c10_full_object_read_count in (*FSTree).readFullObject
+//@   property C10
+//@   callee io.ReadFull
+//@   pureeffect
+//@   defines res0 == readCount()
+//@ func (*FSTree).readFullObject
+//@   property C10
+//@   ensures [result_is_what_decompression_returned] err == nil ==> resultOf(res0, "fstree.decompress")
